@@ -109,16 +109,10 @@ Definition valid_scn (s : scn) : bool :=
   | SPad a b ch => nonul a && nonul b && chr ch
   | SSeq ops => forallb valid_sop ops
   | SSplit a d => nonul a && chr d
-  | SFromTill a c1 c2 => nonul a && isbyte c1 && isbyte c2
+  | SFromTill a c1 c2 => nonul a && isbyte c1 && isbyte c2 && (N.of_nat (length a) <? NPOS)      (* LP64: a length is a size_t below npos *)
   | SMasked v m bc => (v <? ULONG_MOD) && (m <? ULONG_MOD) && (bc <? SIZE_MOD)
   | SBinary bytes => forallb isbyte bytes
   end.
-(* scenarios whose VALUE clause is proved for the model (C13_LifeProofs.v); for the others (split, subStringFromTill, the bit
-   and binary formatters) the model's value is only compared with the code and judged by the textbook oracle below on the
-   runs of the check.  The pairing clause is proved for every scenario. *)
-Definition value_proved (s : scn) : bool :=
-  match s with SOp _ | SRepeat _ _ | SPad _ _ _ | SSeq _ => true | _ => false end.
-
 (* ---------------------------------------------------------------- spec: textbook values (nothing of the model above) *)
 Definition t_pad (a b : list N) (ch : N) : list N * list N :=
   if Nat.ltb (length b) (length a) then (a, repeat ch (length a - length b) ++ b)
